@@ -5,6 +5,7 @@ import (
 	"context"
 	"encoding/binary"
 	"fmt"
+	"io"
 	"math/big"
 	"math/rand"
 	"net/http"
@@ -68,6 +69,35 @@ func streamBody(msgs ...proto.Message) []byte {
 	return b.Bytes()
 }
 
+// slowCreds takes a while to produce its metadata and notes when it was done.
+type slowCreds struct {
+	delay time.Duration
+	done  time.Time
+}
+
+func (c *slowCreds) GetRequestMetadata(context.Context, ...string) (map[string]string, error) {
+	time.Sleep(c.delay)
+	c.done = time.Now()
+	return map[string]string{"authorization": "t"}, nil
+}
+func (c *slowCreds) RequireTransportSecurity() bool { return false }
+
+// slowBody hands out the request body only after a pause and notes when it was first asked for it.
+type slowBody struct {
+	r     io.Reader
+	delay time.Duration
+	first time.Time
+}
+
+func (b *slowBody) Read(p []byte) (int, error) {
+	if b.first.IsZero() {
+		b.first = time.Now()
+		time.Sleep(b.delay)
+	}
+	return b.r.Read(p)
+}
+func (b *slowBody) Close() error { return nil }
+
 type deadlineProbe struct {
 	mu    sync.Mutex
 	has   bool
@@ -79,7 +109,7 @@ type deadlineProbe struct {
 
 func checkC09(e *core.Env) {
 	curEnv = e
-	e.SetRule("client side: virtual-deadline contexts with remaining time from <1ms to 300 years -> GRPC-Timeout captured by a recording RoundTripper, bounds from instants taken before the call and at capture; server side: header strings (6 units x {0,1,9,10,99999999,random 1-8 digits, 9-20 digits, leading zeros} + malformed) through ServeHTTP for unary and stream methods, handler's ctx.Deadline() bounded by instants before ServeHTTP and at handler entry; end-to-end over loopback with real deadlines; all bounds one-sided; distinct = (phase, unit, magnitude class)")
+	e.SetRule("client side: virtual-deadline contexts with remaining time from <1ms to 300 years -> GRPC-Timeout captured by a recording RoundTripper, bounds from instants taken before the call and at capture; server side: header strings (6 units x {0,1,9,10,99999999,random 1-8 digits, 9-20 digits, leading zeros} + malformed) through ServeHTTP for unary and stream methods, handler's ctx.Deadline() bounded by instants before ServeHTTP and at handler entry; a quarter of the client cases use per-RPC credentials that take 5 ms (upper bound then taken when they were obtained), some unary server cases a request body that arrives 5 ms after the headers (upper bound then taken when the server first asked for the body); end-to-end over loopback with real deadlines; all bounds one-sided, from ordered instants only; distinct = (phase, unit, magnitude class)")
 	e.Assume("for values whose exact duration exceeds int64 nanoseconds both a saturated far-future deadline and no deadline at all count as saturation; '+'-signed values are only required not to crash")
 	svc := &Service{}
 	srv := httpgrpc.NewServer()
@@ -117,6 +147,15 @@ func checkC09(e *core.Env) {
 			return nil, fmt.Errorf("recorded")
 		})
 		ch := &httpgrpc.Channel{BaseURL: mustURL("http://c09.test/"), Transport: rt}
+		// credentials that take a while: time spent obtaining them is not transit time, so the header
+		// must carry what remains once they are there
+		var copts []grpc.CallOption
+		var creds *slowCreds
+		if r.Intn(4) == 0 {
+			creds = &slowCreds{delay: 5 * time.Millisecond}
+			copts = append(copts, grpc.PerRPCCredentials(creds))
+			e.Count("client_slow_creds", 1)
+		}
 		t0 := time.Now()
 		D := t0.Add(rem)
 		var ctx context.Context = context.Background()
@@ -124,10 +163,10 @@ func checkC09(e *core.Env) {
 			ctx = virtualDeadlineCtx{ctx, D}
 		}
 		if !stream {
-			ch.Invoke(ctx, Unary.Method(), &tpb.Message{}, new(tpb.Message))
+			ch.Invoke(ctx, Unary.Method(), &tpb.Message{}, new(tpb.Message), copts...)
 		} else {
 			cctx, cancel := context.WithCancel(ctx)
-			st, err := ch.NewStream(cctx, ServerStream.StreamDesc(), ServerStream.Method())
+			st, err := ch.NewStream(cctx, ServerStream.StreamDesc(), ServerStream.Method(), copts...)
 			if err == nil {
 				st.Header() // waits for the round trip
 			}
@@ -156,12 +195,15 @@ func checkC09(e *core.Env) {
 		}
 		// not extended: d <= max(1ms, D - t0) ; not shortened: d >= D - t2 - 1ms
 		hi := D.Sub(t0)
+		if creds != nil && !creds.done.IsZero() {
+			hi = D.Sub(creds.done)
+		}
 		if hi < time.Millisecond {
 			hi = time.Millisecond
 		}
 		lo := D.Sub(t2) - time.Millisecond
 		if d.Cmp(big.NewInt(int64(hi))) > 0 {
-			e.Violate("client/extended", fmt.Sprintf("remaining at call time %v but GRPC-Timeout=%s (longer)", D.Sub(t0), hdr[0]), nil)
+			e.Violate("client/extended", fmt.Sprintf("remaining at call time (after credentials were obtained: %v) %v but GRPC-Timeout=%s (longer)", creds != nil, hi, hdr[0]), nil)
 		}
 		if d.Cmp(big.NewInt(int64(lo))) < 0 {
 			e.Violate("client/shortened", fmt.Sprintf("remaining at send time %v but GRPC-Timeout=%s (shorter by more than 1ms)", D.Sub(t2), hdr[0]), nil)
@@ -172,7 +214,7 @@ func checkC09(e *core.Env) {
 	})
 
 	// ---- server parse ----
-	serve := func(hv string, stream bool) (p *deadlineProbe, tb time.Time, pan string, code int) {
+	serve := func(hv string, stream, slow bool) (p *deadlineProbe, tb time.Time, pan string, code int, sb *slowBody) {
 		p = &deadlineProbe{}
 		sc := &Script{Kind: Unary, UnaryReq: &tpb.Message{}, Resp: &tpb.Message{}}
 		if stream {
@@ -195,13 +237,20 @@ func checkC09(e *core.Env) {
 			req.Header.Set("X-Verif-Run", run.ID)
 		}
 		req.Header["Grpc-Timeout"] = []string{hv}
+		if slow && !stream {
+			// the timeout is known once the headers are there: a body that trickles in afterwards
+			// must not postpone the deadline
+			sb = &slowBody{r: req.Body, delay: 5 * time.Millisecond}
+			req.Body = sb
+			e.Count("server_slow_body", 1)
+		}
 		rec := httptest.NewRecorder()
 		tb = time.Now()
 		pan = guard(func() { srv.ServeHTTP(rec, req) })
-		return p, tb, pan, rec.Code
+		return p, tb, pan, rec.Code, sb
 	}
-	judge := func(hv string, stream bool) {
-		p, tb, pan, code := serve(hv, stream)
+	judge := func(hv string, stream, slow bool) {
+		p, tb, pan, code, sb := serve(hv, stream, slow)
 		d, valid := parseTimeoutExact(hv)
 		if pan != "" {
 			e.Violate("server/panic", fmt.Sprintf("GRPC-Timeout %q made the server panic: %s", trunc(hv, 60), trunc(pan, 600)), hv)
@@ -229,8 +278,12 @@ func checkC09(e *core.Env) {
 			if p.h.Before(tb.Add(time.Duration(lower.Int64()))) {
 				e.Violate("server/too-early/"+string(hv[len(hv)-1]), fmt.Sprintf("GRPC-Timeout %q: handler deadline is %v after the request started, want >= %v (wrap-around / truncation)", hv, p.h.Sub(tb), time.Duration(lower.Int64())), hv)
 			}
-			if !overflow && p.h.After(p.entry.Add(time.Duration(d.Int64()))) {
-				e.Violate("server/too-late/"+string(hv[len(hv)-1]), fmt.Sprintf("GRPC-Timeout %q: handler deadline is %v after handler entry, want <= %v", hv, p.h.Sub(p.entry), time.Duration(d.Int64())), hv)
+			upper := p.entry
+			if sb != nil && !sb.first.IsZero() {
+				upper = sb.first
+			}
+			if !overflow && p.h.After(upper.Add(time.Duration(d.Int64()))) {
+				e.Violate("server/too-late/"+string(hv[len(hv)-1]), fmt.Sprintf("GRPC-Timeout %q: handler deadline is %v after handler entry (or after the server first asked for a slow request body: %v), want <= %v", hv, p.h.Sub(upper), sb != nil, time.Duration(d.Int64())), hv)
 			}
 		}
 	}
@@ -246,7 +299,7 @@ func checkC09(e *core.Env) {
 				}
 				hv := g + string(u)
 				e.Begin("grid", gi, hv)
-				judge(hv, stream)
+				judge(hv, stream, gi%8 == 1)
 				e.Eval(fmt.Sprintf("grid|%c|%s|%v", u, g, stream), true)
 			}
 		}
@@ -274,7 +327,7 @@ func checkC09(e *core.Env) {
 				strings.Repeat("9", 400)+"H", strings.Repeat("S", 50), "\x00", "5\x00S", "9223372036854775807n", "-9223372036854775808n", "m", "n", "1H2M")
 		}
 		e.Note("%q", hv)
-		judge(hv, r.Intn(2) == 0)
+		judge(hv, r.Intn(2) == 0, r.Intn(16) == 0)
 		cls := "malformed"
 		if _, ok := parseTimeoutExact(hv); ok {
 			cls = fmt.Sprintf("%c/%d", hv[len(hv)-1], len(hv))
